@@ -72,7 +72,10 @@ Definition clause_of (fmt : Z) (unsigned : bool) (sh : shape) (ix : index) : Z :
   else if (fmt =? fmt_dok) && is_nil sh then 8                            (* D22 dok: 0-d *)
   else if (fmt =? fmt_dok) && is_nil ix then 6                            (* D22 dok: x[()] *)
   else if (fmt =? fmt_dok) && all_arrays ix then 7                        (* D24 DOK _fancy_getitem *)
-  else if existsb is_ell ix && negb (last_is_ellipsis ix) && forallb (fun e => is_iint e || is_ell e) ix
+  (* D26: all axes indexed by integers plus an Ellipsis that swallows nothing: NumPy returns a 0-d array, the
+     code a scalar — COO/DOK unless the Ellipsis is the last entry; GCXS (ndim >= 2: get_single_element) always *)
+  else if existsb is_ell ix && (negb (last_is_ellipsis ix) || ((fmt =? fmt_gcxs) && nd2))
+          && forallb (fun e => is_iint e || is_ell e) ix
           && (countb is_iint ix =? Z.of_nat (length sh)) then 12          (* D26 *)
   else if existsb (fun p => match fst p with IBArr [] => negb (snd p =? 0) | _ => false end) (faced_of sh ix)
        then 13                                                            (* D29 *)
@@ -179,9 +182,13 @@ Definition dmodel_kind (fmt : Z) (input out : sarr) (ix : index) : Z :=
   | _ => 0
   end.
 
+(* RuntimeError is the model's mark for the unchecked out-of-bounds access of _compute_multi_axis_multi_mask
+   (finding D30; the first loop of the kernel, so also when the index arrays are empty).  DOK.__getitem__ hands
+   the key to COO.__getitem__: the same kernel runs, with the same access. *)
 Definition model_oob (input : sarr) (ix : index) : bool :=
   match input with
   | SCoo c => match getitem kf_all c ix with Raise RuntimeError => true | _ => false end
+  | SDok sh it f => match dok_getitem Z Z.eqb Z.add kf_all sh it f ix with Raise RuntimeError => true | _ => false end
   | _ => false
   end.
 
